@@ -999,6 +999,14 @@ class Interp:
             if all(n in pyt for n in names) and isinstance(v, (tuple, list, dict, str, bool, set, Poly)):
                 return any(isinstance(v, pyt[n]) for n in names)
             raise Undecided("isinstance")
+        if name == "sorted" and isinstance(f, ast.Name) and args:
+            seq = ev(args[0])
+            if isinstance(seq, (dict, set)):
+                seq = list(seq)
+            if isinstance(seq, (list, tuple)) and all(isinstance(x, str) for x in seq) and "key" not in kw:
+                rev = self.truth(ev(kw["reverse"])) if "reverse" in kw else False
+                return sorted(seq, reverse=rev)
+            raise Undecided("sorted of non-strings")
         if name == "set" and isinstance(f, ast.Name):
             return set(ev(args[0])) if args else set()
         raise Undecided(f"call {A.short(e.func, 40)}")
